@@ -1199,6 +1199,11 @@ func TestVerifC01Lab(t *testing.T) {
 				(dataOK || tam == "ds-swap" || tam == "island-hijack") {
 				fkey = "unsigned-ds-trust-link"
 			}
+			// F11, tagged by what is observed: SERVFAIL toward an EDNS client that still carries the outer DNAME/CNAME of the chain
+			// and no Extended DNS Error — answer() copied the rcode of the failed target leg into the reply, not its EDE
+			if fkey == "" && !cd && ed && m.Rcode == dns.RcodeServerFailure && !vC01HasEDE(m) && len(dnsutil.ExtractRRSet(m.Answer, "", dns.TypeDNAME)) > 0 {
+				fkey = "dname-leg-servfail-without-ede"
+			}
 			k := fmt.Sprintf("lab:%s:%s", topo, tam)
 			if origin != "" {
 				k = origin + ":" + k
